@@ -173,7 +173,18 @@ def run(ctx):
         fn = P_.fn(PP)
         body = P_.body(fn)
         none = [w for w in ws if w[3].startswith('Option::None')]
-        for w in ws:
+        if not none:
+            # iterator form: `*key = None` through an element reference
+            for bj, b in enumerate(body.B):
+                for st in b['st']:
+                    rv = st['rv']
+                    is_none = rv['k'] == 'agg' and rv['what'].endswith('Option::None')
+                    if rv['k'] == 'use' and rv['o']['k'] in ('copy', 'move') and not rv['o']['pl']['p']:
+                        is_none = any(d[0] == 'st' and d[1]['k'] == 'agg' and d[1]['what'].endswith('Option::None')
+                                      for d in body.defs.get(rv['o']['pl']['l'], []))
+                    if st['lhs']['p'] == ['*'] and is_none:
+                        none.append((bj, '', '', 'Option::None{}', st['ln'], None))
+        for w in ws + [n for n in none if n not in ws]:
             r.site('%s @%s := %s' % (PP, w[4], w[3][:40]))
         if not none:
             return r.bad('writes', 'provisional_private_tree no longer drops keys of blank nodes')
@@ -194,6 +205,12 @@ def run(ctx):
             r.bad('blank-branch', 'the key is no longer dropped exactly when the node is blank in the provisional tree')
         return r
     ctx.check('NO-KEY-FOR-BLANK', 'keys of nodes blanked by the proposals are dropped', blank_none, floor=1)
+    for fq, tree in (('Group::provisional_private_tree', r'provisional_state\.public_tree\.nodes'), ('TreeKem::encap', r'self\.tree_kem_public\.nodes'),
+                     ('TreeKem::decap', r'self\.tree_kem_public\.nodes'), ('TreeKemPrivate::update_secrets', r'public_tree\.nodes')):
+        ctx.check('KEY-LIST-SIZE', fq + ': key list truncated / extended to the direct path of the current tree',
+                  lambda P_, fq=fq: must_pass(P_, fq, r'Vec::resize$', require_checked=False), floor=1)
+        ctx.check('KEY-LIST-SIZE', fq + ': size = direct path length + 1, filled with None',
+                  lambda P_, fq=fq, tree=tree: _resize_wire(P_, fq, tree), floor=1)
     ctx.check('WIRE', 'blankness is read from the provisional tree',
               lambda P_: wire(P_, PP, r'NodeVec::is_blank$', 0, r'^provisional_state\.public_tree\.nodes$'), floor=1)
     ctx.check('WIRE', 'direct path taken on the provisional tree',
@@ -223,3 +240,22 @@ def run(ctx):
               lambda P_: wire(P_, 'Group as MessageProcessor::apply_update_path', r'TreeKem::new$', 1, r'provisional_private_tree\(self, provisional_state\)\.0$'), floor=1)
     ctx.check('WIRE', 'committer: encapsulation works on the provisional private tree',
               lambda P_: wire(P_, 'Group::commit_internal', r'TreeKem::new$', 1, r'^Group::provisional_private_tree\(self, GroupState::apply_resolved\('), floor=1)
+
+
+def _resize_wire(P, fq, tree_rx):
+    fn = P.fn(fq)
+    body = P.body(fn)
+    o = Origins(body)
+    r = Res()
+    for bi, t in body.calls_named(r'Vec::resize$'):
+        a0, a1, a2 = o.arg_str(t, 0), o.arg_str(t, 1), o.arg_str(t, 2)
+        if not re.search(r'secret_keys$', a0):
+            continue
+        r.site('%s @%s resize(%s, %s, %s)' % (fq, body.ln(bi), a0[-30:], a1[:80], a2[:20]))
+        if not re.search(r'^\(Vec::len\(NodeVec::direct_copath\(%s, .*\)\) AddWithOverflow const 1\)\.0$' % tree_rx, a1):
+            r.bad('size', 'in `%s` the private key list is resized to `%s`, expected len(direct path of the current tree) + 1' % (fq, a1[:160]), where=[body.ln(bi)])
+        if not a2.startswith('Option::None'):
+            r.bad('fill', 'in `%s` new key slots are filled with `%s`, expected None' % (fq, a2[:60]), where=[body.ln(bi)])
+    if not r.sites:
+        r.bad('resize-missing', '`%s` no longer sizes the private key list to the direct path: keys of a larger, earlier tree survive a shrink' % fq, where=[fn['loc']])
+    return r
